@@ -33,9 +33,10 @@ gv.coq_eval = _coq_eval_sharded
 
 
 def classify(cases):
-    """The harness marks an oracle failure with kcoq = `k_class_g G b afters` (a number decided in Coq:
-    0 none, 1 push scope, 2 reorder, 4 edge property above a join, 5 two-hop chain with a hop that
-    matches nothing).  Turn it into
+    """The harness marks an oracle failure with kcoq = `k_class_cfg G b afters bad` (a number decided in
+    Coq from the switch combinations `bad` whose rows differ from the reference run: 0 = some differing
+    combination is excused by no listed class, else the class of the first one: 1 push scope, 2 reorder,
+    4 edge property above a join, 5 two-hop chain with a hop that matches nothing).  Turn it into
     the finding id + a boolean class term, which is what gv.standard_flow decides on."""
     idx = [i for i, c in enumerate(cases) if c.get("oracle") == "fail" and c.get("kcoq")]
     if not idx:
@@ -62,7 +63,7 @@ def run(tier, seed):
         have = {f["id"] for f in chk.known}
         chk.known += [f for f in gv.json.load(open(frag)).get("findings", []) if f.get("property") == PROP and f["id"] not in have]
     proof = gv.proof_status(PROP, REQ_PROPS)
-    ncases = 450 if tier == "quick" else 6000
+    ncases = 450 if tier == "quick" else 4000
     if gv.os.environ.get("GV_C09_CASES"):   # self-tests under machine load: a prefix of the same case stream
         ncases = int(gv.os.environ["GV_C09_CASES"])
     ok, out, binp = gv.cargo_build("c09")
